@@ -588,9 +588,9 @@ int parse_instruction_6502(AsmContext *asm_context, char *instr)
       }
       break;
     case OP_ADDRESS8_RELATIVE:
-      if (num < 0 || num > 0xffff)
+      if (num < 0 || num > 0xff)
       {
-        print_error_range(asm_context, "Address", 0, 0xffff);
+        print_error_range(asm_context, "Address", 0, 0xff);
         return -1;
       }
 
